@@ -59,13 +59,15 @@ package filesystem
 // known(v, ok): the state map has a non-empty hash for the file
 //@ spec fsKnown(v any, ok bool) bool = ok && len(unbox(v, "[]byte")) != 0
 
-// dispatch of a file system event: create, write and chmod are (re)loads, remove is an unload
+// dispatch of a file system event: create, write and chmod are (re)loads; "removed ... sources are
+// unloaded" - a file is gone from its name when it is removed and when it is renamed or moved away
+// (fsnotify reports the latter as Rename of the old name), both are unloads
 //@ spec evHas(evt fsnotify.Event, op fsnotify.Op) bool
 //@ func (*Provider).ruleSetsChanged
 //@   props C18
 //@   ensures evHas(evt, fsnotify.Create) || evHas(evt, fsnotify.Write) || evHas(evt, fsnotify.Chmod) ==> cou.n == old(cou.n) + 1 && cou.arg1[old(cou.n)] == evt.Name && ret0 == cou.ret0[old(cou.n)]
-//@   ensures !(evHas(evt, fsnotify.Create) || evHas(evt, fsnotify.Write) || evHas(evt, fsnotify.Chmod)) && evHas(evt, fsnotify.Remove) ==> rsd.n == old(rsd.n) + 1 && rsd.arg1[old(rsd.n)] == evt.Name && ret0 == rsd.ret0[old(rsd.n)] && cou.n == old(cou.n)
-//@   ensures !(evHas(evt, fsnotify.Create) || evHas(evt, fsnotify.Write) || evHas(evt, fsnotify.Chmod)) && !evHas(evt, fsnotify.Remove) ==> rsd.n == old(rsd.n) && cou.n == old(cou.n) && ret0 == nil
+//@   ensures !(evHas(evt, fsnotify.Create) || evHas(evt, fsnotify.Write) || evHas(evt, fsnotify.Chmod)) && (evHas(evt, fsnotify.Remove) || evHas(evt, fsnotify.Rename)) ==> rsd.n == old(rsd.n) + 1 && rsd.arg1[old(rsd.n)] == evt.Name && ret0 == rsd.ret0[old(rsd.n)] && cou.n == old(cou.n)
+//@   ensures !(evHas(evt, fsnotify.Create) || evHas(evt, fsnotify.Write) || evHas(evt, fsnotify.Chmod)) && !evHas(evt, fsnotify.Remove) && !evHas(evt, fsnotify.Rename) ==> rsd.n == old(rsd.n) && cou.n == old(cou.n) && ret0 == nil
 
 // C07 "No interleaving of requests and changes produces a data race ... none is lost or half
 // overwritten": ruleSetCreatedOrUpdated looks a file's hash up and acts on it afterwards (the
